@@ -125,8 +125,15 @@ def main(argv):
     it = prop.cases(tier, seed, want)
     smallest = None
     largest = None
+    # self-test only (selftest/run_mutants.py): stop all workers of the run as
+    # soon as one of them has a shrunk, unexplained witness
+    failfast = os.path.join(os.path.dirname(out), 'FAILFAST') \
+        if os.environ.get('TSV_FAILFAST') else None
     for k, payload in it:
         if time.time() - t0 > budget:
+            res['truncated'] = True
+            break
+        if failfast and res['evaluations'] % 16 == 0 and os.path.exists(failfast):
             res['truncated'] = True
             break
         res['evaluations'] += 1
@@ -162,6 +169,10 @@ def main(argv):
             if rec.get('known'):
                 res['known_hits'][rec['known']] = \
                     res['known_hits'].get(rec['known'], 0) + 1
+            elif failfast:
+                open(failfast, 'w').close()
+                res['truncated'] = True
+                break
         else:
             # cheap classification without shrinking, so that the totals are
             # right: known vs unknown
